@@ -44,7 +44,7 @@ Lemma eget_origin s' i e : is_seg w' s' -> eget s' i = Some e ->
 Proof.
   intros Hs E. destruct (seg_cases C HCnd w l Hst Hns HA s' Hs) as [Hold|n n' Hn Hn' Eid Hp -> HK|m k' q Hk' Eq Es Hm Hrole Ht Hd Hsub Hb ->].
   - left. exists s'. auto.
-  - destruct HK as [El|r e0 Er Er' Ei Et Erole Efr Ept Hlead Hi2|k q x F Hk Eq Ed -> Hterm (Hx1 & Hbx & F0 & F1 & F2 & F3 & F4 & F6)].
+  - destruct HK as [El|r e0 Er Er' Ei Et Erole Efr Ept Hlead Hi2|k q x F Hk Eq Ed -> Hterm (Hx1 & Hbx & F0 & F1 & F2 & F3 & F4 & F6 & F7)].
     + left. exists (seg_of_log (n_log n)). split; [left; exists n; auto|]. rewrite <- El. exact E.
     + rewrite Er' in E. destruct (N.le_gt_cases i (N.of_nat (length r))) as [Hi|Hi].
       * left. exists (seg_of_log (n_log n)). split; [left; exists n; auto|]. rewrite Er. rewrite eget_app_old in E by exact Hi. exact E.
